@@ -13,6 +13,8 @@ mkdir -p "$work/sim" "$work/vd"; rsync -a --exclude target /verif/sim/ "$work/si
 sed -i "s|path = \"/repo\"|path = \"$work/repo\"|" "$work/sim/Cargo.toml"; cp /verif/known_findings.json "$work/vd/"
 ( cd "$work/sim" && CARGO_NET_OFFLINE=true cargo build --release --offline >"$work/build.log" 2>&1 ) || { echo "BUILD-FAILED $(basename $patch)"; tail -15 "$work/build.log"; exit 4; }
 props=$(python3 -c "import json;print(' '.join(c['property_id'] for c in json.load(open('/verif/MANIFEST.json'))['checks']))")
+# TRY_PROPS="C02 C04" limits the run to those checks
+[ -n "${TRY_PROPS:-}" ] && props="$TRY_PROPS"
 caught=""; silent=""; errs=""
 for p in $props; do
   out=$(VERIF_DIR="$work/vd" "$work/sim/target/release/gsesim" check $p $tier --scale $scale 2>&1); rc=$?
